@@ -99,6 +99,15 @@ theorem Good3.dynInv {m : Mgr} {ext : Nat → Nat} (h : Good3 m ext) (h2 : 2 ≤
 theorem DynInv.good3 {m : Mgr} {ext : Nat → Nat} (h : DynInv ext m) (hr : m.roots = []) : Good3 m ext :=
   ⟨h.inv, h.order, h.refs, h.ctx, h.sched, hr⟩
 
+/-- the constants are "held" by everybody: what is kept for held references is kept for them -/
+theorem Held2.heldX {ext : Nat → Nat} {m m' : Mgr} (h : Held2 ext m m') {u : Int} (hu : HeldX ext u) :
+    m'.tbl.Mem u ∧ ∀ σ, denN m'.tbl u σ = denN m.tbl u σ := by
+  rcases hu with h1 | hpos
+  · refine ⟨Or.inl h1, fun σ => ?_⟩
+    unfold denN
+    rw [den_term h1, den_term h1]
+  · exact h u hpos
+
 /-- what a step of a history establishes: invariant for the new ledger, held references kept by
 name, the switch as it was, the internal signal not raised -/
 structure Step3 (m : Mgr) (ext ext' : Nat → Nat) (res : Except Err Res × Mgr) : Prop where
@@ -160,7 +169,7 @@ theorem declare_step3 (m : Mgr) (ext : Nat → Nat) (h : Good3 m ext) (name : St
     rcases addVar_cases m h.order name level hg with he | ⟨-, he⟩ <;> rw [he] <;> rfl
 
 /-- outside a context `find_or_add` does not call `_request_reordering` -/
-theorem findOrAdd_noctx (m : Mgr) (hc : m.ctx = false) (i v w : Int) :
+theorem findOrAdd_noctx3 (m : Mgr) (hc : m.ctx = false) (i v w : Int) :
     findOrAdd i v w m = if i < 0 then (.error .value, m) else findOrAddCore i.toNat v w m := by
   unfold findOrAdd
   simp only [hc, Bool.false_eq_true, if_false]
@@ -168,7 +177,7 @@ theorem findOrAdd_noctx (m : Mgr) (hc : m.ctx = false) (i v w : Int) :
 theorem findOrAdd_step3 (m : Mgr) (ext : Nat → Nat) (h : Good3 m ext) (i v w : Int)
     (hg : 0 ≤ i → FoaGuard m i.toNat v w) :
     Step3 m ext ext (mapRes .ref (findOrAdd i v w m)) := by
-  rw [findOrAdd_noctx m h.ctx]
+  rw [findOrAdd_noctx3 m h.ctx]
   split
   · exact step3_of_kept h _ _ (Kept.refl h.inv) h.exact (by simp)
   · exact step3_of_kept h _ _ (findOrAddCore_total m h.inv _ v w (hg (by omega)))
@@ -466,13 +475,15 @@ theorem step3_heldSame (m : Mgr) (ext : Nat → Nat) (op : UOp3) (h : Good3 m ex
   | op o => exact (step3_op m ext h o hg).held
   | configure b => exact (configure_step3 m ext h b).2.1
 
+/-- the switch after a call, given the switch before it -/
+def UOp3.switchAfter : UOp3 → Bool → Bool
+  | .op _, old => old
+  | .configure b, _ => b
+
 /-- only `configure` changes whether dynamic reordering is enabled (F11: also a call that fails
 in the retry after a sifting re-arms it) -/
 theorem step3_switch (m : Mgr) (ext : Nat → Nat) (op : UOp3) (h : Good3 m ext) (hg : OpGuard3 m ext op) :
-    (runOp3 op m).2.lastLen.isSome =
-      match op with
-      | .op _ => m.lastLen.isSome
-      | .configure b => b := by
+    (runOp3 op m).2.lastLen.isSome = op.switchAfter m.lastLen.isSome := by
   cases op with
   | op o => exact (step3_op m ext h o hg).switch
   | configure b => exact (configure_step3 m ext h b).2.2.1
